@@ -222,6 +222,27 @@ def bool_facts(fn, bb, _depth=0):
     P = prov.prov_of(fn)
     for sw, label, info in _dominating_edges(fn, bb):
         out.append((info['cond'], label))
+        if info['kind'] == 'enum' and _depth < 3:
+            # `match x` where x was assembled on several paths as different variants (an inlined `fn f(..) -> Option<T>` with an early
+            # `return None`): being in the arm of variant L means x came from a definition that built L — the facts at that definition hold too
+            try:
+                op = fn.blocks[sw]['t']['discr']
+                dd = P.reaching(op['p']['l'], sw, len(fn.blocks[sw]['s'])) if op.get('k') in ('copy', 'move') and 'proj' not in op['p'] else []
+                if len(dd) == 1 and dd[0].kind == 'assign' and dd[0].data['rv']['k'] == 'discr' and 'proj' not in dd[0].data['rv']['p']:
+                    xdefs = P.reaching(dd[0].data['rv']['p']['l'], dd[0].bb, dd[0].idx)
+                    # follow one plain copy/move (`dest = move _ret`)
+                    for _ in range(3):
+                        if len(xdefs) == 1 and xdefs[0].kind == 'assign' and xdefs[0].data['rv']['k'] == 'use' and \
+                                xdefs[0].data['rv']['op'].get('k') in ('copy', 'move') and 'proj' not in xdefs[0].data['rv']['op']['p']:
+                            xdefs = P.reaching(xdefs[0].data['rv']['op']['p']['l'], xdefs[0].bb, xdefs[0].idx)
+                        else:
+                            break
+                    if len(xdefs) >= 2 and all(d.kind == 'assign' and d.data['rv']['k'] == 'agg' and d.data['rv'].get('enum') for d in xdefs):
+                        live = [d for d in xdefs if d.data['rv'].get('variant') in label.split('|')]
+                        if len(live) == 1:
+                            out.extend(bool_facts(fn, live[0].bb, _depth + 1))
+            except (KeyError, IndexError, TypeError):
+                pass
         if info['kind'] != 'bool' or label not in ('true', 'false'):
             continue
         out.extend(_predicate_helper_facts(fn, info['cond'], label, _depth))
